@@ -106,6 +106,7 @@ class C16(Prop):
             cfg["name_style"] = r.choice(["unique", "scoped", "pool"])
             cfg["name_pool"] = ["a", "A", "ab", "a_b", "n1", "x y", "a[0]", "1a", "a-b"]
             cfg["edif_props"] = r.random() < 0.5
+            cfg["odd_prop_ident"] = r.choice([0.0, 0.3])   # property identifiers that are no EDIF identifiers (API-built)
             cfg["mixed_meta"] = r.random() < 0.4
         elif r.random() < 0.3:
             # a text from the independent writers, read by the library's own reader: netlists with the rarer things a
